@@ -40,7 +40,17 @@
 //	    function must be called unconditionally from Process (chain of top-level calls), must be
 //	    the only writer of the field, and the full reset must be the first statement of it that
 //	    mentions the field.
-//	(d) package-level variables written outside package initialisation.
+//	(d) package-level variables written outside package initialisation (outside init functions,
+//	    functions only called from them, and package-level initialisers): an assignment, ++,
+//	    delete / clear whose target starts at the variable; the ADDRESS of the variable (or of a
+//	    field / element of it) handed to a callee - every callee but sync/atomic Load* counts as a
+//	    writer (atomic.AddInt32(&v, 1), Store*, Swap*, CompareAndSwap*, ...) - or otherwise taken
+//	    (stored, returned); a method called on the variable (or a field / element of it) when it
+//	    is a method of a sync or sync/atomic type other than Load / Range / the mutex operations
+//	    (Add, Store, Swap, CompareAndSwap, LoadOrStore, Delete, Put, Get, Do, ...) or a
+//	    pointer-receiver method of this package that writes through its receiver (directly, or
+//	    through a method it calls on the receiver).  This is state carried between calls AND
+//	    between Modules values.
 //
 // The reviewed file allow.json (embedded) says what each field is TODAY and why: registry (the
 // loaded modules themselves), config, sync (mutexes), derived (per-run state: must be reset or
